@@ -520,3 +520,46 @@ def fam_structured(T=3, thorough=False):
                   slack(T, 'n2', pr2, lo=-2, hi=2)]
         out.append(F.make_cfg(ids(), T, assets, struct=[1, 2, 3], struct_window=sw))
     return out
+
+
+# ---------------------------------------------------------------- seeded larger portfolios (TLC validates, does not enumerate)
+def fam_random(seed, n=20, T=12, storages=(1, 3)):
+    """random portfolios on 2-3 nodes with T steps: every node has a slack market; contracts with takes, transports, storages, multi-commodity.
+    Used for code -> spec only (the optimiser's output must be a behaviour of the specification, with the reported value)."""
+    import random
+    rnd = random.Random(seed)
+    out = []
+    for cid in range(1, n + 1):
+        nodes = ['n1', 'n2', 'n3'][:rnd.choice((2, 3))]
+        dt = [rnd.choice((1, 2))] * T
+        H = sum(dt)
+        assets = []
+        for nd in nodes:
+            assets.append(slack(T, nd, [rnd.randint(1, 9) for _ in range(T)], lo=-rnd.randint(4, 8), hi=rnd.randint(4, 8), ec=rnd.choice((0, 0, 1))))
+        for _ in range(rnd.randint(*storages)):
+            nin = rnd.choice(nodes)
+            nout = rnd.choice(nodes) if rnd.random() < 0.4 else nin
+            size = rnd.randint(2, 8)
+            start = rnd.randint(0, size)
+            ws = rnd.choice((1, 1, 2, -1))
+            we = rnd.choice((T + 1, T + 1, T - 1, T + 3))
+            assets.append(F.storage(T, nin, nout, size=size, cin=rnd.randint(1, 3), cout=rnd.randint(1, 3), start=start, end=rnd.choice((start, 0, min(size, 1))),
+                                    inflow=rnd.choice((0, 0, 1)), eff=rnd.choice(((1, 1), (1, 2))), costin=rnd.choice((0, 1)), costout=rnd.choice((0, 1)),
+                                    coststore=rnd.choice((0, 0, 1)), ws=ws, we=we))
+        for _ in range(rnd.randint(0, 2)):
+            a, b = rnd.sample(nodes, 2)
+            lo, hi = rnd.choice(((0, 2), (0, 3), (-2, 0), (1, 2)))
+            assets.append(F.transport(T, a, b, lo, hi, eff=rnd.choice(((1, 1), (1, 2))), cost=rnd.choice((0, 1, 2)), costts=[rnd.choice((0, 1)) for _ in range(T)]))
+        for _ in range(rnd.randint(0, 2)):
+            s0 = rnd.randint(-4, H - 2)
+            e0 = s0 + rnd.randint(2, H)
+            sense = rnd.choice(('min', 'max'))
+            lo, hi = rnd.choice(((0, 3), (-2, 2), (-3, 0)))
+            vol = rnd.randint(1, 6) * (1 if hi > 0 else -1)
+            assets.append(F.contract(T, rnd.choice(nodes), lo, hi, [rnd.randint(1, 9) for _ in range(T)], ec=rnd.choice((0, 1)),
+                                     takes=[dict(s=s0, e=e0, vol=vol, sense=sense)], force_contract=True, ws=rnd.choice((1, -2, 3)), we=rnd.choice((T + 1, T + 4, T - 2))))
+        if len(nodes) >= 2 and rnd.random() < 0.5:
+            a, b = rnd.sample(nodes, 2)
+            assets.append(F.multi(T, [a, b], [(1, 1), rnd.choice(((1, 2), (1, 1), (-1, 1)))], 0, 2, [rnd.randint(1, 9) for _ in range(T)], ec=rnd.choice((0, 1))))
+        out.append(F.make_cfg(cid, T, assets, dt=dt))
+    return out
